@@ -56,6 +56,10 @@ class Canon(ast.NodeTransformer):
                 and isinstance(node.args[0], ast.Call) and isinstance(node.args[0].func, ast.Attribute) and node.args[0].func.attr == "keys" \
                 and not node.args[0].args:
             node.args[0] = node.args[0].func.value
+        # d.get(k, None) is d.get(k)
+        if isinstance(node.func, ast.Attribute) and node.func.attr == "get" and len(node.args) == 2 and not node.keywords \
+                and isinstance(node.args[1], ast.Constant) and node.args[1].value is None:
+            node.args = node.args[:1]
         name = call_name(node)
         # list comprehension consumed by a reducing builtin -> generator
         if name in ("any", "all", "sum", "tuple", "min", "max", "set", "sorted", "list") and node.args and isinstance(node.args[0], ast.ListComp):
@@ -206,6 +210,38 @@ class _Inline(ast.NodeTransformer):
 
 def inline(expr: ast.AST, scope: Scope) -> ast.AST:
     return _Inline(scope, 0).visit(clone(expr))
+
+
+class _KwCalls(ast.NodeTransformer):
+    def __init__(self, scope: Scope):
+        self.scope = scope
+
+    def visit_Call(self, node: ast.Call):
+        self.generic_visit(node)
+        f = self.scope.get(node.func.id) if isinstance(node.func, ast.Name) else None
+        if f is None or f.args.vararg or f.args.posonlyargs or any(isinstance(x, ast.Starred) for x in node.args) \
+                or any(k.arg is None for k in node.keywords):
+            return node
+        params = [x.arg for x in f.args.args]
+        if len(node.args) > len(params):
+            return node
+        given = dict(zip(params, node.args))
+        for k in node.keywords:
+            if k.arg in given:
+                return node
+            given[k.arg] = k.value
+        order = params + [x.arg for x in f.args.kwonlyargs]
+        first = params[:1] if params and params[0] in given else []  # the first argument stays positional: `f(x, atol=atol)`
+        node.args = [given[n] for n in first]
+        node.keywords = [ast.keyword(arg=n, value=given[n]) for n in order if n in given and n not in first] + \
+                        [ast.keyword(arg=n, value=v) for n, v in given.items() if n not in order]
+        return node
+
+
+def kwcalls(expr: ast.AST, scope: Scope) -> ast.AST:
+    """Calls of functions known in `scope` in one form: first argument positional, the others by keyword in signature order,
+    so that `f(x, atol)` and `f(x, atol=atol)` read the same."""
+    return _KwCalls(scope).visit(clone(expr))
 
 
 # ---------------------------------------------------------------------------
